@@ -85,9 +85,15 @@ def ret_sources(f):
             if (id(v), id(b)) in seen:
                 continue
             seen.add((id(v), id(b)))
-            if v.is_inst and v.op == "phi":
-                for val, pred in zip(v.ops, v.x["inc"]):
+            w = v
+            while w.is_inst and w.op in ("trunc", "zext", "sext") and w.ops[0].is_inst and w.ops[0].op in ("phi", "trunc", "zext", "sext"):
+                w = w.ops[0]
+            if w.is_inst and w.op == "phi":
+                for val, pred in zip(w.ops, w.x["inc"]):
                     stack.append((val, pred))
+            elif w.is_inst and w.op == "select":
+                stack.append((w.ops[1], b))
+                stack.append((w.ops[2], b))
             else:
                 out.append((v, b))
     return out
